@@ -134,6 +134,11 @@ func evalExecBlock(vm *r.VM, execBlock *syntax.ExecBlock, params []r.Element) (r
 		}
 	}
 
+	// a body made of declarations only has run no statement: its value is 空 as well
+	if stmtBlockErr == nil && rtnValue == nil {
+		rtnValue = value.NewNull()
+	}
+
 	return rtnValue, stmtBlockErr
 }
 
